@@ -65,6 +65,12 @@ func (c *FnCtx) prologue() {
 		for _, r := range c.spec.Requires {
 			c.assume(c.mustClause(r, env))
 		}
+		for _, gv := range c.spec.GhostVars {
+			// a ghost variable starts with its declared value
+			comp, _, _ := c.localGhost(gv.Name)
+			v, _ := c.tr(gv.Init.E, env)
+			c.assume(eq(c.get(c.st, comp), v))
+		}
 	}
 }
 
@@ -159,8 +165,8 @@ func (c *FnCtx) frameFormulas(st *State, comps []string) (assume, goal []Term) {
 		panic(unsupported(err.Error()))
 	}
 	for _, comp := range comps {
-		if comp == "$alloc" {
-			continue
+		if comp == "$alloc" || strings.HasPrefix(comp, "lghost$") {
+			continue // ghost variables of this function are invisible to callers
 		}
 		pre := c.get(c.entry, comp)
 		post := c.get(st, comp)
@@ -771,6 +777,19 @@ func (c *FnCtx) loopModified(li *LoopInfo) {
 					c.chanMods(st.Chan, other)
 				}
 			case *ssa.Call:
+				if c.spec != nil && len(c.spec.Sets) > 0 {
+					// ghost assignments attached to calls in the loop body
+					ci := c.resolveCallee(&x.Call)
+					for key, gs := range c.spec.Sets {
+						if key == ci.name || strings.HasPrefix(key, ci.name+"#") {
+							for _, g := range gs {
+								if comp, _, ok := c.localGhost(g.Name); ok {
+									other[comp] = true
+								}
+							}
+						}
+					}
+				}
 				// contract calls whose assigns name fields/elements of loop-invariant arguments keep
 				// the inferred frame for every other object
 				var det []modTarget
